@@ -4,6 +4,9 @@ import json, os
 V = "/verif"
 CLAIMED = {
  # id: (clause text, technique, level_note, design_ref)
+ "C05": ("Decides the structural mechanism of atomicity for every failing transaction at once: validation precedes execution; nothing reachable from validateTrx mutates a ledger item, an overlay or controller state (the stake limiter, consulted as the last validation step and fail-clean, is the one checked exception); in every execution function no error exit is reachable while an effect is in force — an effect/typestate analysis over all paths that retracts effects on a fail-clean callee's own error edge (computed recursively), on dead error edges of always-nil callees and by the registered compensations (refund of the same amount, CancelSet of the object), with two exceptions whose structural side conditions are checked (the fee debit is pre-checked with the same fee expression; the deleted delegatee key is the one just read); EVM failures revert to the pre-transaction snapshot before syncing out; the fee is added only on success. It does not evaluate that compensations restore exact values.",
+         "path-sensitive effect/typestate analysis with recursive fail-clean summaries + purity (who-may-write) check of the validation call tree + pairing rules on the EVM snapshot/revert/finish protocol",
+         "trusted: go/ssa, call graph; role tables of item mutators and overlay mutators (tool/c05.go, tool/execctx.go)", "DESIGN.md §3 C05"),
  "C16": ("Decides the structural fee/gas mechanisms for every transaction and block at once: the gas-price equality and minimum-fee guards (and the intrinsic-gas guard for contracts) lie on every success path of validation and use the node's governance controller; the routing decision table shows every natively executed transaction is debited exactly gas-limit x price once and reports GasUsed = gas limit; on the EVM route gas limit, governance price and amount reach the message unchanged and GasUsed is the result's UsedGas; deliverTxSync adds GasToFee(GasUsed, governance price) only on the success branch and on every success; the fee sum has a closed set of writers, starts at zero in a context created afresh per block, and EndBlock credits exactly SumFee() to the header's proposer in the consensus overlay. Numeric sums and go-ethereum's gas accounting are not covered.",
          "guard dominance on every success path + exhaustive routing decision table over the CFGs + who-may-write/who-may-call + argument data-flow checks on the EVM route and the proposer credit",
          "trusted: go/ssa, call graph, go-ethereum gas accounting, uint256", "DESIGN.md §3 C16"),
